@@ -1,4 +1,4 @@
-import sys; sys.path.insert(0,'/tmp/fixes'); from edit import rep
+import sys; sys.path.insert(0,'/verif/tools'); from edit import rep
 rep('segno/encoder.py', """    micro_allowed = micro or micro is None
     min_version""", """    micro_allowed = (micro or micro is None) and not eci
     min_version""")
